@@ -27,6 +27,11 @@ CHECKS = {
          "Generates commands from the supported RFC 3501/2971/4315/6851/2177/3691 grammar subset (all 29 commands and UID forms, sequence sets, flag lists, fetch attributes/sections/partials, recursive search keys, date/date-time, ID lists), renders every string argument as atom, quoted string or literal where allowed, randomises keyword case, concatenates 1-5 commands and feeds the bytes in 1-byte/small/medium/whole chunks through the reader stack the server uses; command.Parser.Parse must return exactly the generated command. Quick: ~360k commands, thorough: ~9M.",
          "Trusts the generator's own reading of the grammar (only valid commands are generated; leniency of the parser beyond the grammar is not judged) and the reflective dump used for comparison.",
          "DESIGN.md §4 C10"),
+ "C16": ("exploration",
+         "reference resolver monitor: generated message sets (hostile magnitudes, both range orders, '*', unions) against views with UID gaps; selected messages / BAD+no-effect compared with an RFC 3501 set resolver; exhaustive small-n table in thorough",
+         "Runs the real server and, for views of 0-12 messages with UID gaps, issues FETCH/STORE/COPY/MOVE/SEARCH/UID EXPUNGE (sequence and UID forms) with generated sets whose numbers include 0, n+1, 2^31+-1, 2^32+-1, 2^32+k, 2^63+-1, 2^64+k, 10^30; the messages actually affected (rows returned, flags set, messages copied/moved/expunged, search results) must equal what an independent resolver computes, an invalid sequence number must give BAD and leave source and destination unchanged. Thorough adds all sets of <=2 ranges over {1..n+2,*} for n<=4.",
+         "Trusts the resolver's reading of RFC 3501 (the n:* case above the highest UID is not judged, as the property says); numbers outside nz-number in UID sets may be refused or resolved mathematically.",
+         "DESIGN.md §4 C16"),
 }
 
 ALL = ["C%02d" % i for i in range(1, 21)]
